@@ -46,6 +46,7 @@ let rec edit_ops toks =
   | _ -> failwith "bad edit op"
 
 let cur_proto = ref UDP
+let show_hdr = ref false     (* allocation regime 2 on UDP: the header in memory is shown *)
 
 (* type and message id are not carried by the reliable framings *)
 let from_code (d : string) : string =
@@ -58,7 +59,7 @@ let from_code (d : string) : string =
 (* accessor dump, buffer, and whether header + buffer parse back to the same message *)
 let dump_b (p : ed_bpdu) : string =
   match ed_abs p with
-  | None -> "[STUCK] b=" ^ hex_of_bytes p.eb_buf
+  | None -> "[STUCK] b=" ^ hex_of_bytes p.eb_buf ^ " h=-"
   | Some m ->
       let mine = dump_msg m in
       let rp =
@@ -68,7 +69,8 @@ let dump_b (p : ed_bpdu) : string =
             let theirs = dump_msg m' in
             if m'.m_code = m.m_code && from_code mine = from_code theirs then "rp=="
             else Printf.sprintf "rp=[%s]" theirs in
-      Printf.sprintf "[%s] b=%s %s" mine (hex_of_bytes p.eb_buf) rp
+      let h = if !show_hdr then hex_of_bytes (header UDP m) else "-" in
+      Printf.sprintf "[%s] b=%s h=%s %s" mine (hex_of_bytes p.eb_buf) h rp
 
 let same_as_spec (p : ed_bpdu) (q : pdu) : bool =
   match ed_abs p with
@@ -82,9 +84,10 @@ let filter_of s =
 
 let c04_gen cast8 toks =
   match toks with
-  | pr :: _amode :: mx :: kind :: rest ->
+  | pr :: amode :: mx :: kind :: rest ->
       let pr = proto_of_string pr in
       cur_proto := pr;
+      show_hdr := false;
       let mxi = int_of_string mx in
       let start_toks, rest2 = split_at [] "E" rest in
       let edit_toks, dup_toks = split_at [] "X" rest2 in
@@ -114,6 +117,7 @@ let c04_gen cast8 toks =
            let b = Buffer.create 1024 in
            Buffer.add_string b (Printf.sprintf "start=%s %s" tag (dump_b p0));
            if not (same_as_spec p0 q0) then Buffer.add_string b " SPECDIFF@start";
+           show_hdr := (amode = "2" && pr = UDP);
            let p = ref p0 and q = ref q0 and stuck = ref false and i = ref 0 in
            List.iter (fun e ->
                incr i;
@@ -142,6 +146,7 @@ let c04_gen cast8 toks =
                      if ed_dup !q (zi mid') (zi smax) t f <> None then
                        Buffer.add_string b " SPECDIFF@dup"
                  | Some (Some d) ->
+                     show_hdr := false;      (* the copy has no header yet *)
                      Buffer.add_string b (" || dup=" ^ dump_b d);
                      (match ed_dup !q (zi mid') (zi smax) t f with
                       | Some dq when same_as_spec d dq -> ()
